@@ -151,6 +151,10 @@ def programs(ctx, n):
         # length fields of every width class in front of payloads that are not one byte long: a test that compares the
         # instance it encoded with the decoded one depends on what the encoder stores back into the length member
         progs.extend(FIXED_LENGTH_WIDTHS)
+        # package / module names are the user's: a digit next to a letter, a capital inside (fix44, ouchV5) — the codec files
+        # and their tests must agree on how such a name is spelled
+        for g, j in (("fix44", "com.acme.fix44"), ("ouchV5", "io.ouchV5.codec"), ("sample_bin", "sample_bin.msgs")):
+            progs.append(FIXED_REFERENCE_CHAIN.replace('"example.com/msg"', '"example.com/acme/%s"' % g).replace('"msg"', '"%s"' % g).replace('"com.example.msg"', '"%s"' % j))
         for p in pipeline.matrix_programs()[: (6 if ctx.tier == "quick" else 48)]:
             progs.append(dslgen.render(force_options(p)))
         for _ in range(n):
